@@ -39,6 +39,10 @@ def w_tar(arg):
     acc = Acc('%s/%s/%s/%s' % (kind, cid, sname, variant))
     e = [f for c, f in catalogue.builders('thorough', seed) if c == cid][0]()
     crys, chem = e['crys'], e['chem']
+    try:
+        from onsager import automator
+    except Exception as ex:       # the module under contract cannot even be imported: that is a verdict about the code, not a checker fault
+        acc.check(False, 'automator-module-imports', '%s: %s' % (type(ex).__name__, ex), sig='import'); return acc.result()
     with warnings.catch_warnings():
         warnings.simplefilter('ignore')
         from onsager import OnsagerCalc, automator, supercell
@@ -161,8 +165,11 @@ def w_map2string(arg):
     """map2string against its documented layout, on group operations / mappings of real supercells plus seeded permutations"""
     tier, seed = arg
     from vf.common import repo_on_path; repo_on_path()
-    from onsager import automator, crystal
     acc = Acc('map2string')
+    try:
+        from onsager import automator, crystal
+    except Exception as ex:
+        acc.check(False, 'automator-module-imports', '%s: %s' % (type(ex).__name__, ex), sig='import'); return acc.result()
     rng = np.random.default_rng(seed)
     for trial in range(40 if tier == 'quick' else 400):
         rot = rng.integers(-3, 4, size=(3, 3)); trans = rng.uniform(-1, 1, 3)
